@@ -414,11 +414,25 @@ func (st *c09State) endCase() {
 }
 
 func (st *c09State) setInt(key string, v int64) bool {
-	resp, err := st.rig.GW.Set(context.Background(), &hydrapb.SetRequest{Swamps: []*hydrapb.SwampRequest{{
-		IslandID: 1, SwampName: st.swamp, CreateIfNotExist: true, Overwrite: true,
-		KeyValues: []*hydrapb.KeyValuePair{{Key: key, Int64Val: &v}},
-	}}})
-	return err == nil && resp != nil
+	res := make(chan bool, 1)
+	th := st.threads.Current()
+	go func() {
+		if th != "" {
+			st.threads.Register(th)
+			defer st.threads.Unregister()
+		}
+		resp, err := st.rig.GW.Set(context.Background(), &hydrapb.SetRequest{Swamps: []*hydrapb.SwampRequest{{
+			IslandID: 1, SwampName: st.swamp, CreateIfNotExist: true, Overwrite: true,
+			KeyValues: []*hydrapb.KeyValuePair{{Key: key, Int64Val: &v}},
+		}}})
+		res <- err == nil && resp != nil
+	}()
+	select {
+	case ok := <-res:
+		return ok
+	case <-time.After(c09StepTimeout):
+		return false // the request hangs (e.g. a save that waits for its own guard)
+	}
 }
 
 // ---------------------------------------------------------------- stress
